@@ -47,13 +47,16 @@ func init() {
 type jmap = map[string]interface{}
 
 // cniParent runs one case in a child process with a private mount namespace.
-func cniParent(c map[string]interface{}) map[string]interface{} {
+func cniParent(c map[string]interface{}) map[string]interface{} { return inPrivateNS("cni-child", c) }
+
+// inPrivateNS runs one case of the given child sub-command in a child process with a private mount namespace.
+func inPrivateNS(child string, c map[string]interface{}) map[string]interface{} {
 	self, err := os.Executable()
 	if err != nil {
 		return jmap{"res": "harness-error", "err": err.Error()}
 	}
 	in, _ := json.Marshal(c)
-	cmd := exec.Command(self, "cni-child")
+	cmd := exec.Command(self, child)
 	cmd.Stdin = bytes.NewReader(append(in, '\n'))
 	var out, errb bytes.Buffer
 	cmd.Stdout, cmd.Stderr = &out, &errb
